@@ -51,6 +51,11 @@ func runProp(repo, prop string, cfg config) (ctx *Ctx, w *World, err error) {
 				err = &LoadError{fmt.Sprintf("analyser panic in %s: %v\n%s", prop, r, debug.Stack())}
 			}
 		}()
+		// resolve anchors and roles on the raw tree first; afterwards value identity looks through private helpers
+		crossWorld, paramBindings = nil, nil
+		w.Anchors()
+		w.Roles()
+		crossWorld = w
 		props[prop].Run(ctx)
 	}()
 	if err != nil {
